@@ -502,3 +502,43 @@ Proof.
   destruct (maglev_probe mg a cands start i fuel) as [h|] eqn:E; [right|left; reflexivity].
   exists h. split; [reflexivity|]. eapply maglev_probe_in; eauto.
 Qed.
+
+(* ------------------------------------------------------------------ *)
+(** * The entry points that select and then connect *)
+
+Lemma backend_from_cluster_eligible s c w s' h code :
+  backend_from_cluster s c w = (s', Some h, code) -> eligible s (c_list (cget s c)) h.
+Proof.
+  unfold backend_from_cluster. destruct (select s c None) as [s1 r] eqn:E.
+  destruct r as [[h0|]|hs]; try discriminate.
+  destruct (connect_handle s1 h0 w) as [s2 cd]. intros X. inversion X; subst.
+  apply selected_is_eligible_lemma with (key := None). rewrite E. cbn. auto.
+Qed.
+
+Lemma backend_from_sticky_eligible s c sid w s' h code :
+  backend_from_sticky s c sid w = (s', Some h, code) ->
+  (find_sticky s c sid = Some h /\ In h (c_list (cget s c)) /\ can_open (s_now s) (bk s h) = true) \/
+  (find_sticky s c sid = None /\ eligible s (c_list (cget s c)) h).
+Proof.
+  unfold backend_from_sticky. destruct (find_sticky s c sid) as [h0|] eqn:F.
+  - destruct (connect_handle s h0 w) as [s2 cd]. intros X. inversion X; subst. left.
+    destruct (sticky_sound_lemma s c sid h F) as (A & _ & B). auto.
+  - intros X. right. split; [reflexivity|]. eapply backend_from_cluster_eligible; eauto.
+Qed.
+
+(** [try_connect]: a connection is counted iff it was opened; a refused or
+    failed connect leaves the counter alone; only a Normal backend is dialled *)
+Lemma try_connect_counts now w b :
+  let '(b', code) := try_connect now w b in
+  (code = 0 -> b_status b = Normal /\ b_conns b' = b_conns b + 1) /\
+  (code <> 0 -> b_conns b' = b_conns b) /\
+  (code = 2 -> b_status b = Normal /\ b_failures b' = b_failures b + 1 /\
+               b_retry b' = retry_fail (b_retry b) now w).
+Proof.
+  unfold try_connect. destruct (b_status b) eqn:S.
+  - destruct (connectable (b_addr b)).
+    + unfold inc_connections. rewrite S. cbn. repeat split; auto; try discriminate; congruence.
+    + cbn. repeat split; auto; discriminate.
+  - cbn. repeat split; auto; discriminate.
+  - cbn. repeat split; auto; discriminate.
+Qed.
